@@ -167,6 +167,27 @@ def gen_cases(ctx):
                 {"cls": spec[b], "rec": a, "ce": 'kit_ce "%s"' % b},
                 {"cls": spec[b], "rec": b, "ce": 'kit_ce "%s"' % b},
                 {"cls": spec[a], "rec": b, "ce": 'kit_ce "%s"' % a}]})
+    # (h) long twins: two long plasmids of one module class that differ only in the middle of the target — one of
+    #     them carries a further site of the cutter there (rejected: illegal site) — typed one after the other; first
+    #     and last letters of the matched stretch are the same in both
+    hn = 0
+    for p in classes:
+        if p["role"] != "module" or hn >= (6 if ctx.quick else 30):
+            continue
+        items = pattern.tokenize(p["structure"], ctx.lettermap)
+        site = p["cutter"]["site"]
+        clean = gens.instantiate(rng, items, star=(90, 110)) + gens.rand_dna(rng, 3)
+        mid = len(clean) // 2
+        if site in clean[len(site) + 2:-len(site) - 5] or gens.rc(site) in clean[len(site) + 2:-len(site) - 5]:
+            continue
+        dirty = clean[:mid] + site + clean[mid + len(site):]
+        kc, kd = "LC%d" % hn, "LD%d" % hn
+        inst[kc], inst[kd] = clean, dirty
+        a = {"cls": spec[p["name"]], "rec": kc, "ce": 'kit_ce "%s"' % p["name"]}
+        b = {"cls": spec[p["name"]], "rec": kd, "ce": 'kit_ce "%s"' % p["name"]}
+        cases.append({"kind": "long-twins", "history": [a, b]})
+        cases.append({"kind": "long-twins", "history": [b, a, b]})
+        hn += 1
     # (b) random longer histories, with subclasses created at run time
     nh = 60 if ctx.quick else 600
     for hno in range(nh):
